@@ -144,6 +144,8 @@ func runHist(rf *RunFile, g *Gen, nOps int) *RunOutcome {
 		e.Audit()
 		e.plainAudit = false
 	}
+	e.opIdx = len(rf.Ops)
+	e.closeAtEnd()
 	out.V = e.V
 	out.Stats = e.Stats
 	out.Hash = e.Ctl.Hash ^ rng.HashString(e.M.Fingerprint())
